@@ -30,7 +30,7 @@ Print Assumptions C03_sort_succeeds_when_declared.
 (** Each variable's value arrives under that variable's name: for any values, matching the
     instantiated path binds the i-th variable to the i-th value, by name. *)
 Theorem C03_args_follow_names : forall t vals i v x,
-  NoDup (vars t) -> List.length vals = List.length (vars t) ->
+  NoDup (vars t) -> List.length vals = List.length (vars t) -> Forall (fun y => y <> "") vals ->
   nth_error (vars t) i = Some v -> nth_error vals i = Some x ->
   exists b, match_template t (instantiate t vals) = Some b /\ lookup b v = Some x /\ map snd b = vals.
 Proof. exact args_follow_names. Qed.
@@ -44,6 +44,14 @@ Theorem C03_only_matching : forall base rs m path op args,
 Proof. exact dispatch_only_matching. Qed.
 Print Assumptions C03_only_matching.
 
+(** A path variable stands for a non-empty segment: a request with an empty segment where the template has a
+    variable (/pets//toys/ball against /pets/{id}/toys/{toy}) matches nothing, whatever else it holds. *)
+Theorem C03_empty_variable_segment_matches_nothing : forall (pre : template) v (post : template) (ppre ppost : list string),
+  List.length ppre = List.length pre ->
+  match_template (pre ++ SVar v :: post)%list (ppre ++ "" :: ppost)%list = None.
+Proof. exact empty_variable_segment_matches_nothing. Qed.
+Print Assumptions C03_empty_variable_segment_matches_nothing.
+
 (** ... a request matching no operation reaches no handler ... *)
 Theorem C03_no_match_no_handler : forall base rs m path,
   (forall r p, In r rs -> strip_prefix base path = Some p -> matches m p r = false) ->
@@ -53,7 +61,7 @@ Print Assumptions C03_no_match_no_handler.
 
 (** ... the only matching operation is the one that runs, with the path values in path order ... *)
 Theorem C03_dispatch_exact : forall rs m r vals,
-  In r rs -> r_method r = m -> List.length vals = List.length (vars (r_tmpl r)) ->
+  In r rs -> r_method r = m -> List.length vals = List.length (vars (r_tmpl r)) -> Forall (fun y => y <> "") vals ->
   (forall r', In r' rs -> r' <> r -> matches m (instantiate (r_tmpl r) vals) r' = false) ->
   (forall r', In r' rs -> r' = r \/ r' <> r) -> NoDup rs ->
   dispatch [] rs m (instantiate (r_tmpl r) vals) = Some (r_op r, vals).
